@@ -823,6 +823,179 @@ class Extractor:
         return got == f"Module(body=[{want}], type_ignores=[])"
 
 
+
+
+# ------------------------------------------------------------------------------------------------
+# hidden mutable state shared between an object and its copies
+#
+# `set_state_from` (used by `copy` and by every non-inplace method) copies each attribute to some
+# depth: 0 = by reference, 1 = `.copy()` (the container is new, its values are shared),
+# 2 = `{k: v.copy() ...}`.  If some method mutates an attribute *in place* at a depth greater than
+# the depth it is copied to, a non-inplace (seeded) operation writes into its argument's state
+# behind the caller's back and the next identical call sees a different object (seeded change
+# C17-3: `already_optimized` copied to depth 1, `already_optimized[obj].add(...)` is depth 2).
+MUTATORS = {"add","append","update","pop","clear","setdefault","discard","remove","extend","insert","popitem","sort","difference_update","intersection_update","appendleft","popleft"}
+_SHALLOW_CTORS = {"set", "dict", "list", "frozenset", "tuple", "oset"}
+def copy_depth(expr, src_is):
+    """depth of the copy an expression makes of `src` (src_is(e) recognises the source expression)"""
+    if src_is(expr): return 0
+    if isinstance(expr, ast.Call) and isinstance(expr.func, ast.Attribute) and expr.func.attr=="copy" and src_is(expr.func.value) and not expr.args: return 1
+    if isinstance(expr, ast.Call) and len(expr.args)==1 and src_is(expr.args[0]):
+        f=expr.func
+        nm=f.id if isinstance(f, ast.Name) else (f.attr if isinstance(f, ast.Attribute) else None)
+        if nm=="deepcopy": return 9
+        if nm in _SHALLOW_CTORS or nm=="copy": return 1
+    if isinstance(expr, ast.DictComp) and len(expr.generators)==1:
+        g=expr.generators[0]
+        if isinstance(g.iter, ast.Call) and isinstance(g.iter.func, ast.Attribute) and g.iter.func.attr=="items" and src_is(g.iter.func.value):
+            v=expr.value
+            if isinstance(v, ast.Call) and isinstance(v.func, ast.Attribute) and v.func.attr=="copy": return 2
+            if isinstance(v, ast.Call) and len(v.args)==1:
+                nm=v.func.id if isinstance(v.func, ast.Name) else getattr(v.func, "attr", None)
+                if nm=="deepcopy": return 9
+                # any constructor-like call on the value alone (`set(v)`, `type(v)(v)`, `copy(v)`)
+                tv = g.target.elts[1] if isinstance(g.target, ast.Tuple) and len(g.target.elts)==2 else None
+                if isinstance(tv, ast.Name) and isinstance(v.args[0], ast.Name) and v.args[0].id==tv.id and not v.keywords:
+                    return 2
+            return 1
+    return None
+def _copy_depths(repo):
+    out={}
+    for dp,dn,fns in os.walk(os.path.join(repo,'cotengra')):
+        dn[:]=[d for d in dn if d!='experimental']
+        for fn in fns:
+            if not fn.endswith('.py'): continue
+            tree=ast.parse(open(os.path.join(dp,fn)).read())
+            for cls in [n for n in ast.walk(tree) if isinstance(n, ast.ClassDef)]:
+                for m in cls.body:
+                    if isinstance(m, ast.FunctionDef) and m.name=="set_state_from" and len(m.args.args)==2:
+                        other=m.args.args[1].arg
+                        attrs={}
+                        for node in ast.walk(m):
+                            if isinstance(node, ast.For) and isinstance(node.target, ast.Name) and isinstance(node.iter,(ast.Tuple,ast.List)):
+                                var=node.target.id
+                                names=[e.value for e in node.iter.elts if isinstance(e, ast.Constant)]
+                                for st in ast.walk(node):
+                                    if isinstance(st, ast.Call) and isinstance(st.func, ast.Name) and st.func.id=="setattr" and len(st.args)==3:
+                                        def src_is(e): return isinstance(e, ast.Call) and isinstance(e.func, ast.Name) and e.func.id=="getattr" and len(e.args)==2 and isinstance(e.args[0], ast.Name) and e.args[0].id==other
+                                        d=copy_depth(st.args[2], src_is)
+                                        for a in names: attrs[a]=d
+                            if isinstance(node, ast.Assign) and len(node.targets)==1:
+                                t=node.targets[0]
+                                if isinstance(t, ast.Attribute) and isinstance(t.value, ast.Name) and t.value.id=="self":
+                                    a=t.attr
+                                    def src_is(e, a=a): return isinstance(e, ast.Attribute) and isinstance(e.value, ast.Name) and e.value.id==other
+                                    d=copy_depth(node.value, src_is)
+                                    if d is not None or any(isinstance(x, ast.Name) and x.id==other for x in ast.walk(node.value)):
+                                        attrs[a]=d
+                        out[cls.name]=attrs
+    return out
+def attr_of(e, attrs):
+    """(attr, depth) if e is  R.attr  (depth 0),  R.attr[k] (1), R.attr[k][j] (2) ..."""
+    d=0
+    while isinstance(e, ast.Subscript): e=e.value; d+=1
+    if isinstance(e, ast.Attribute) and e.attr in attrs and isinstance(e.value, ast.Name):
+        r = e.value.id
+        # the receiver denotes one of the owner objects: `self` inside an owner class, or a
+        # name that says so (`tree`, `new_tree`, ...; inside owner classes also `other`, `new`, `t`)
+        if "tree" in r.lower() or (not _FOREIGN_SELF[0] and r in ("self", "other", "new", "t")):
+            return e.attr, d
+    return None
+_FOREIGN_SELF=[False]
+def _mutations(repo, attrs, owners):
+    """deepest in-place mutation of each attribute.  `owners`: names of the classes that own the
+    attributes (the class with `set_state_from` and its subclasses); inside *other* classes the
+    receiver `self` is not one of these objects."""
+    mut={a:(0,None) for a in attrs}
+    def note(a,d,where):
+        if d>mut[a][0]: mut[a]=(d,where)
+    for dp,dn,fns in os.walk(os.path.join(repo,'cotengra')):
+        dn[:]=[d for d in dn if d!='experimental']
+        for fn in sorted(fns):
+            if not fn.endswith('.py'): continue
+            tree=ast.parse(open(os.path.join(dp,fn)).read())
+            funcs=[]
+            for n in tree.body:
+                if isinstance(n, ast.FunctionDef): funcs.append((None,n))
+                if isinstance(n, ast.ClassDef):
+                    funcs.extend((n.name,m) for m in n.body if isinstance(m, ast.FunctionDef))
+            for cname,f in funcs:
+                if f.name in ("set_state_from","__init__"): continue
+                _FOREIGN_SELF[0] = cname is not None and cname not in owners
+                alias={}   # local name -> (attr, depth of the object it denotes)
+                for _ in range(2):
+                  for node in ast.walk(f):
+                    if isinstance(node, ast.Assign) and len(node.targets)==1 and isinstance(node.targets[0], ast.Name):
+                        v=node.value; r=None
+                        if isinstance(v, ast.Subscript): r=attr_of(v, attrs) or (alias.get(v.value.id) and (alias[v.value.id][0], alias[v.value.id][1]+1) if isinstance(v.value, ast.Name) else None)
+                        elif isinstance(v, ast.Call) and isinstance(v.func, ast.Attribute) and v.func.attr in ("get","setdefault","pop"):
+                            b=attr_of(v.func.value, attrs)
+                            if b: r=(b[0], b[1]+1)
+                        elif isinstance(v, ast.Attribute): 
+                            b=attr_of(v, attrs)
+                            if b: r=b
+                        if r: alias[node.targets[0].id]=r
+                    if isinstance(node, ast.For):
+                        it=node.iter
+                        if isinstance(it, ast.Call) and isinstance(it.func, ast.Attribute) and it.func.attr in ("items","values"):
+                            b=attr_of(it.func.value, attrs)
+                            if b:
+                                t=node.target
+                                tv=t.elts[1] if (it.func.attr=="items" and isinstance(t, ast.Tuple) and len(t.elts)==2) else t
+                                if isinstance(tv, ast.Name): alias[tv.id]=(b[0], b[1]+1)
+                def obj(e):
+                    b=attr_of(e, attrs)
+                    if b: return b
+                    d=0; x=e
+                    while isinstance(x, ast.Subscript): x=x.value; d+=1
+                    if isinstance(x, ast.Name) and x.id in alias: return alias[x.id][0], alias[x.id][1]+d
+                    return None
+                for node in ast.walk(f):
+                    where=f"{fn}:{f.name}:{getattr(node,'lineno',0)}"
+                    if isinstance(node, ast.Call) and isinstance(node.func, ast.Attribute) and node.func.attr in MUTATORS:
+                        b=obj(node.func.value)
+                        if b: note(b[0], b[1]+1, where)
+                    tg=[]
+                    if isinstance(node, ast.Assign): tg=node.targets
+                    if isinstance(node, ast.AugAssign): tg=[node.target]
+                    if isinstance(node, ast.Delete): tg=node.targets
+                    for t in tg:
+                        if isinstance(t, ast.Subscript):
+                            b=obj(t.value)
+                            if b: note(b[0], b[1]+1, where)
+    return mut
+
+
+def sharing_facts(repo):
+    """rows (class, attribute, copy depth, deepest in-place mutation, where)"""
+    rows = []
+    depths = _copy_depths(repo)
+    for cls, attrs in sorted(depths.items()):
+        if not attrs:
+            continue
+        owners = {cls}
+        changed = True
+        trees = []
+        for dp, dn, fns in os.walk(os.path.join(repo, "cotengra")):
+            dn[:] = [d for d in dn if d not in EXCLUDE_DIRS]
+            for fn in fns:
+                if fn.endswith(".py"):
+                    trees.append(ast.parse(open(os.path.join(dp, fn)).read()))
+        while changed:
+            changed = False
+            for t in trees:
+                for n in ast.walk(t):
+                    if isinstance(n, ast.ClassDef) and n.name not in owners and \
+                            any(isinstance(b, ast.Name) and b.id in owners for b in n.bases):
+                        owners.add(n.name)
+                        changed = True
+        mut = _mutations(repo, attrs, owners)
+        for a, d in sorted(attrs.items()):
+            rows.append({"cls": cls, "attr": a, "copy": d if d is not None else 0,
+                         "copy_recognised": d is not None, "mut": mut[a][0], "where": mut[a][1]})
+    return rows
+
+
 def build(repo):
     """Returns the node table. Each node: {"id", "q", "mode", "calls": [ids], "rdGlobal", "rdHash",
     "why": [...]}; plus the entries (seeded APIs)."""
@@ -935,6 +1108,7 @@ def build(repo):
             "entries": [{"q": q, "id": ids[k]} for q, k in zip(entries, entry_keys) if in_scope(q)],
             "extras": [{"q": q, "id": ids[k]} for q, k in zip(entries, entry_keys) if not in_scope(q)],
             "get_rng_shape_ok": ex.get_rng_shape_ok(),
+            "sharing": sharing_facts(repo),
             "opaque_calls": sum(f.get("opaque", 0) for f in raw.values()),
             "reviewed_int_sets": sorted(f"{k[0]} {k[1]}: {v}" for k, v in REVIEWED_INT_SETS.items())}
 
@@ -987,6 +1161,12 @@ def to_lean(facts):
         f"/-- rows of the public callables with a `seed` parameter, entered in mode S -/\n"
         f"def entries : List FnId := [{ents}]\n\n"
         "def entryNames : List String := [\n" + names + "\n]\n\n"
+        "/-- attributes copied by `set_state_from`: (copy depth, deepest in-place mutation) --\n"
+        "    0 = by reference, 1 = `.copy()`, 2 = `{k: v.copy()}`; an unrecognised copy counts as 0 -/\n"
+        "def sharing : List (Nat × Nat) := [\n" +
+        ",\n".join(f"  ({r['copy']}, {r['mut']})" for r in facts.get("sharing", [])) + "\n]\n\n"
+        "def sharingNames : List String := [\n" +
+        ",\n".join(f'  "{r["cls"]}.{r["attr"]}"' for r in facts.get("sharing", [])) + "\n]\n\n"
         "end Cotengra.FactsC17\n"
     )
 
@@ -998,6 +1178,9 @@ if __name__ == "__main__":
     fx = build(repo)
     v = verdicts(fx)
     print(len(fx["table"]), "nodes;", len(fx["entries"]), "entries; get_rng shape ok:", fx["get_rng_shape_ok"])
+    for r in fx["sharing"]:
+        if r["mut"] > r["copy"]:
+            print("SHARED+MUTATED", r)
     for q, r in v.items():
         print(("clean  " if r["clean"] else "TAINTED"), "     " if r["in_scope"] else "extra", q, r["reach"],
               "" if r["clean"] else json.dumps(r["tainted"][:3]))
